@@ -66,11 +66,14 @@ def elems_tok(elems):
     return ' '.join(key_tok(e) + (':G' if a == 'GET' else ':A') for e, a in elems)
 
 
+PADS = ['pad', None, 0, b'p', 2.5]          # what precedes the location inside a list: items of several types
+
+
 def build(keys, leaf):
     obj = leaf
     for k in reversed(keys):
         if isinstance(k, Idx):
-            obj = ['pad'] * int(k) + [obj]
+            obj = [PADS[i % len(PADS)] for i in range(int(k))] + [obj]
         else:
             obj = {k: obj}
     return obj
@@ -137,6 +140,10 @@ def observe(keys):
         from deepdiff import DeepSearch
         sp = list(DeepSearch(t1, l1, verbose_level=2, case_sensitive=False).get('matched_values', {}))
         out['search_paths'] = sp
+        # the same search with the types of the padding items excluded: the location keeps its index
+        sx = list(DeepSearch(t1, l1, verbose_level=2, case_sensitive=False, exclude_types=[int, bytes, float, type(None)]).get('matched_values', {}))
+        if sx != sp:
+            out['search_paths'] = ['with exclude_types: %r' % (sx,)] + sp
     except Exception as e:
         out['search_paths'] = 'raised ' + type(e).__name__
     if isinstance(out['parsed'], list):
